@@ -165,3 +165,121 @@ class ExactFree:
     def qfactor(self, cod, dom, vals) -> Fr:
         nm = "q|%s|%s|%s" % (",".join(cod), ",".join(dom), "".join(map(str, vals)))
         return self.params.get(nm, Fr(1, 3))
+
+
+# --------------------------------------------------------------------------- one joint over counterfactual variables
+# Expressions that contain a term mixing worlds (P(Y_x, Y, Z)) are evaluated over ONE free positive joint whose
+# coordinates are the distinct counterfactual variables (name, intervention assignment) that the compared expressions
+# mention: every probability term, single-world or not, is a marginal of it.  Distinct counterfactual variables are
+# treated as distinct random variables with an arbitrary joint, which is exactly the setting of the probability-calculus
+# identities of C10/C12/C13 (no structural axioms are assumed, so an identity that holds here holds in every model).
+MAX_COORDS = 7
+
+
+class CoordRecorder:
+    """First pass: records which (population, name, do) coordinates the expressions ask for."""
+
+    def __init__(self, names, card=None):
+        self.card = {n: 2 for n in names}
+        if card:
+            self.card.update(card)
+        self.coords: dict = {}
+        self.used_cw = False
+
+    def _note(self, pop, atoms):
+        for n, do, _ in atoms:
+            d = tuple(sorted(do.items())) if isinstance(do, dict) else tuple(do)
+            if n not in dict(d):
+                self.coords.setdefault(pop, set()).add((n, d))
+
+    def prob_rat(self, pop, do, assign):
+        self._note(pop, [(n, do, v) for n, v in assign.items()])
+        return Rat.const(1)
+
+    def prob(self, pop, do, assign):
+        self._note(pop, [(n, do, v) for n, v in assign.items()])
+        return Fr(1)
+
+    def prob_cw(self, pop, atoms):
+        if len({tuple(sorted(a[1].items())) if isinstance(a[1], dict) else tuple(a[1]) for a in atoms}) > 1:
+            self.used_cw = True
+        self._note(pop, atoms)
+        return Rat.const(1)
+
+    def qfactor(self, cod, dom, vals):
+        return Rat.const(1)
+
+    def frozen(self):
+        return {pop: tuple(sorted(cs)) for pop, cs in sorted(self.coords.items())}
+
+
+def _cw_cells(coords, card):
+    return list(itt.product(*[range(card[n]) for n, _ in coords]))
+
+
+class SymFreeCW(SymFree):
+    def __init__(self, names, coords: dict, card=None):
+        super().__init__(names, card)
+        self.coords = coords
+        self._joint: dict = {}
+
+    def _joint_table(self, pop):
+        t = self._joint.get(pop)
+        if t is None:
+            cs = self.coords[pop]
+            cells = _cw_cells(cs, self.card)
+            atoms = []
+            for j in range(len(cells) - 1):
+                nm = pname("cwj", pop, j)
+                v = z3.Real(nm)
+                self.params[nm] = v
+                self.constraints.append(v > 0)
+                atoms.append(v)
+            if atoms:
+                last = ONE - (z3.Sum(atoms) if len(atoms) > 1 else atoms[0])
+                self.constraints.append(last > 0)
+                atoms.append(last)
+            else:
+                atoms = [ONE]
+            t = (cs, dict(zip(cells, atoms)))
+            self._joint[pop] = t
+        return t
+
+    def prob_cw(self, pop, atoms) -> Rat:
+        key = cw_key(atoms)
+        if key is None:
+            return Rat(None)
+        if not key:
+            return Rat(())
+        cs, table = self._joint_table(pop)
+        idx = {c: i for i, c in enumerate(cs)}
+        want = {idx[(n, d)]: v for n, d, v in key}
+        terms = [a for cell, a in table.items() if all(cell[i] == v for i, v in want.items())]
+        return Rat((terms[0] if len(terms) == 1 else z3.Sum(terms),))
+
+    def prob_rat(self, pop, do: dict, assign: dict) -> Rat:
+        return self.prob_cw(pop, [(n, do, v) for n, v in assign.items()])
+
+
+class ExactFreeCW(ExactFree):
+    def __init__(self, names, params: dict, coords: dict, card=None):
+        super().__init__(names, params, card)
+        self.coords = coords
+
+    def prob_cw(self, pop, atoms) -> Fr:
+        key = cw_key(atoms)
+        if key is None:
+            return Fr(0)
+        if not key:
+            return Fr(1)
+        cs = self.coords[pop]
+        cells = _cw_cells(cs, self.card)
+        default = Fr(1, max(len(cells), 1))
+        vals = [self.params.get(f"cwj|{pop}|{j}", default) for j in range(len(cells) - 1)]
+        vals.append(1 - sum(vals))
+        idx = {c: i for i, c in enumerate(cs)}
+        want = {idx[(n, d)]: v for n, d, v in key}
+        return sum((p for cell, p in zip(cells, vals) if all(cell[i] == v for i, v in want.items())), Fr(0))
+
+    def prob(self, pop, do: dict, assign: dict) -> Fr:
+        return self.prob_cw(pop, [(n, do, v) for n, v in assign.items()])
